@@ -393,3 +393,24 @@ def r12_5_immutability(ctx: Ctx) -> RuleResult:
             rr.ok({"type": t, "constructors": len(fresh[t])})
     rr.notes.append(f"{counted} attribute/subscript stores on value-type instances examined")
     return rr
+
+
+@rule("C12")
+def r12_6_interned_identity(ctx: Ctx) -> RuleResult:
+    """Types compared by identity (no __eq__) whose constructor is memoised: the memo key must determine every stored component,
+    otherwise two different values (e.g. two eras sharing a short name) become one object and compare equal."""
+    from ..memo import memo_tables
+
+    rr = RuleResult("R12.6", "interned constructors of identity-compared types key the intern table on every stored component", min_instances=1)
+    for mt in memo_tables(ctx.M):
+        f = mt.fn
+        if f.cls is None or f.name.strip("_") not in ("ctor", "new", "init"):
+            continue
+        if ctx.M.find_method(f.cls, "__eq__") is not None:
+            continue
+        rr.inst()
+        if mt.problem:
+            rr.fail(f.qual, mt.problem, ctx.loc(f, mt.node))
+        else:
+            rr.ok({"interned constructor": f.qual, "how": mt.how, "components": sorted(mt.deps)})
+    return rr
